@@ -84,6 +84,9 @@ def run_data(idx, rng, sh):
     chdr = struct.pack(E + ('IIQQ' if cls == 64 else 'III'), *((ctype, rng.getrandbits(32), declared, calign) if cls == 64 else (ctype, declared, calign)))
     strs = [bytes(rng.choice(b'abcXYZ_.') for _ in range(n)) for n in (0, 1, 62, 63, 64, 65, 126, 127, 128, 129, 200)]
     strs += ['é中'.encode('utf-8'), b'\xff\xferaw', b'a']
+    if rng.random() < 0.15:
+        # one very long string (a linker map, a mangled template name): the distance to the terminator is not bounded
+        strs.append(bytes(rng.choice(b'abcXYZ_.') for _ in range(rng.choice([65535, 65536, 65537, 70000, 131072]))))
     rng.shuffle(strs)
     strtab = b'\0' + b'\0'.join(strs) + b'\0'
     nobits_size = rng.choice([0, 1, 4096, 100000, 1 << 22])
@@ -144,6 +147,12 @@ def run_data(idx, rng, sh):
         raise Bad('NOBITS data')
     s = ef.get_section_by_name('.strs')
     offs = list(range(len(strtab)))
+    if len(strtab) > 20000:
+        # every offset of the short strings; of the long one its start, a few offsets near its start and end, every 4099th
+        ends = [i for i, b in enumerate(strtab) if b == 0]
+        import bisect
+        offs = [o for o in offs if ends[bisect.bisect_left(ends, o)] - o <= 300 or o % 4099 == 0 or
+                (o and strtab[o - 1] == 0) or (o > 1 and strtab[o - 2] == 0)]
     rng.shuffle(offs)
     for o in offs:
         w = strtab[o:strtab.index(b'\0', o)].decode('utf-8', 'replace')
@@ -177,9 +186,9 @@ def run_data(idx, rng, sh):
                       loads=[(hex(g.vaddr), g.filesz, g.memsz) for g in loads])
     if list(ef.address_offsets(0x10000)) != [0x10000 - g.vaddr + g.offset for g in loads if 0x10000 >= g.vaddr and 0x10001 <= g.vaddr + g.filesz]:
         raise Bad('address_offsets default size')
-    sh.held(('data', cls, le, size, cmode, bad, nobits_size > 0), n=3 + len(strtab) + len(qs) + len(info['segs']))
+    sh.held(('data', cls, le, size, cmode, bad, nobits_size > 0), n=3 + len(offs) + len(qs) + len(info['segs']))
     sh.sample({'class': cls, 'little_endian': le, 'size': size, 'compression': cmode, 'rejecting_case': bad,
-               'string_offsets_queried': len(strtab), 'address_queries': len(qs)}, kind='data')
+               'string_offsets_queried': len(offs), 'address_queries': len(qs)}, kind='data')
 
 
 SEG_TYPES = [1, 1, 2, 4, 7, 6, R.PT_GNU_RELRO, R.PT_GNU_EH_FRAME, R.PT_GNU_STACK, 3, 0x6474e553, 0x70000001, 5,
